@@ -8,6 +8,11 @@ import (
 
 type specAbort struct{ why string }
 
+type specWrite struct {
+	c   *Cell
+	old Value
+}
+
 // tryIfConv merges a side-effect-free triangle or diamond below a symbolic
 // branch into ite terms at the join block instead of forking the path.
 func (x *Exec) tryIfConv(fr *frame, in *ssa.If, cond *smt.Term) bool {
@@ -44,6 +49,45 @@ func (x *Exec) tryIfConv(fr *frame, in *ssa.If, cond *smt.Term) bool {
 	nfind := len(x.findings)
 	stackLen := len(x.stack)
 	ok := true
+	logBase := len(x.specLog)
+	// final values written by each side (cells restored to their old value in between)
+	type written struct {
+		old Value
+		t   Value
+		f   Value
+	}
+	touched := map[*Cell]*written{}
+	var order []*Cell
+	collect := func(isT bool) {
+		for i := len(x.specLog) - 1; i >= logBase; i-- {
+			w := x.specLog[i]
+			e := touched[w.c]
+			if e == nil {
+				e = &written{}
+				touched[w.c] = e
+				order = append(order, w.c)
+			}
+			if isT && e.t == nil {
+				e.t = w.c.V
+			}
+			if !isT && e.f == nil {
+				e.f = w.c.V
+			}
+		}
+		// restore (oldest entry last so the original value wins)
+		for i := len(x.specLog) - 1; i >= logBase; i-- {
+			w := x.specLog[i]
+			w.c.V = w.old
+			touched[w.c].old = w.old
+		}
+		x.specLog = x.specLog[:logBase]
+	}
+	restore := func() {
+		for i := len(x.specLog) - 1; i >= logBase; i-- {
+			x.specLog[i].c.V = x.specLog[i].old
+		}
+		x.specLog = x.specLog[:logBase]
+	}
 	runSide := func(b *ssa.BasicBlock, c *smt.Term) {
 		if b == nil || !ok {
 			return
@@ -77,9 +121,16 @@ func (x *Exec) tryIfConv(fr *frame, in *ssa.If, cond *smt.Term) bool {
 		fr.block = saved
 	}
 	runSide(sideT, cond)
+	if ok {
+		collect(true)
+	}
 	runSide(sideF, x.C.Not(cond))
+	if ok {
+		collect(false)
+	}
 	fr.block = a
 	if !ok || len(x.inputs) != nin || len(x.findings) != nfind {
+		restore()
 		x.inputs = x.inputs[:nin]
 		return false
 	}
@@ -115,6 +166,31 @@ func (x *Exec) tryIfConv(fr *frame, in *ssa.If, cond *smt.Term) bool {
 			return false
 		}
 		vals = append(vals, pv{phi, m})
+	}
+	// merge guarded stores
+	var commits []specWrite
+	for _, cell := range order {
+		e := touched[cell]
+		vt, vf := e.t, e.f
+		if vt == nil {
+			vt = e.old
+		}
+		if vf == nil {
+			vf = e.old
+		}
+		m, good := x.mergeValues(cond, vt, vf)
+		if !good {
+			return false
+		}
+		commits = append(commits, specWrite{cell, m})
+	}
+	for _, cm := range commits {
+		if x.spec > 0 {
+			// nested speculation: the merged store is itself a guarded store
+			x.store(cm.c, cm.old)
+		} else {
+			cm.c.V = cm.old
+		}
 	}
 	for _, p := range vals {
 		fr.env[p.phi] = p.v
